@@ -98,6 +98,7 @@ class C13Bounded(Bounded):
 RULE2 = {"title": "t2", "id": "9a0ab1b9-1a0b-4b1a-8a1b-0123456789ab", "status": "test", "level": "high", "date": "2023-05-17", "author": "me", "references": ["https://a", "https://b"],
          "tags": ["attack.t1059", "attack.execution"], "myint": 5, "mystr": "AbC", "mylist": ["a", "b"], "logsource": {"category": "c", "product": "p", "service": "s"},
          "detection": {"sel": {"f": ["a*", "b"], "g|re": "^x.*$", "n": 5, "z": None, "h|fieldref": "f"}, "nest": [{"k": "v"}, {"k2": "v2"}], "condition": "sel or nest"}}
+RULE3 = {"title": "t3", "logsource": {"category": "c"}, "detection": {"sel": {"c|cased": "AbC", "d": "AbC", "t": 12, "e|cased|contains": "x"}, "condition": "sel"}}
 LEVELS = ["informational", "low", "medium", "high", "critical"]
 STATUSES = ["unsupported", "deprecated", "experimental", "test", "stable"]
 CMP = {"eq": lambda a, b: a == b, "ne": lambda a, b: a != b, "gte": lambda a, b: a >= b, "gt": lambda a, b: a > b, "lte": lambda a, b: a <= b, "lt": lambda a, b: a < b}
@@ -236,6 +237,8 @@ class C13BuiltinConditions(Bounded):
         # ---- field name conditions
         fc = [({"type": "include_fields", "fields": ["f", "k2"]}, {"f", "k2"}), ({"type": "exclude_fields", "fields": ["f", "k2"]}, ALL - {"f", "k2"}), ({"type": "include_fields", "fields": ["k"]}, {"k"}),
               ({"type": "include_fields", "fields": ["k.*"], "mode": "re"}, {"k", "k2"}), ({"type": "include_fields", "fields": ["^k$", "n|z"], "mode": "re"}, {"k", "n", "z"}), ({"type": "exclude_fields", "fields": ["k"], "mode": "re"}, ALL - {"k", "k2"}),
+              ({"type": "include_fields", "fields": ["(?i)^K$", "^N$"], "mode": "re"}, {"k"}), ({"type": "include_fields", "fields": ["^N$", "(?i)^K2$"], "mode": "re"}, {"k2"}),
+              ({"type": "exclude_fields", "fields": ["(?i)^F$", "^G$", "^Z$"], "mode": "re"}, ALL - {"f"}), ({"type": "include_fields", "fields": ["^(k)\\1$", "^(n)$"], "mode": "re"}, {"n"}),
               ({"type": "include_fields", "fields": ["K"]}, set()), ({"type": "include_fields", "fields": []}, set()), ({"type": "exclude_fields", "fields": []}, ALL),
               ({"type": "processing_item_applied", "processing_item_id": "nobody"}, set()), ({"type": "processing_state", "key": "k", "val": "v"}, ("state", {"k": "v"}, ALL))]
         for cond, want in fc:
@@ -254,5 +257,22 @@ class C13BuiltinConditions(Bounded):
                 exp = (ALL - want - ({"h"} if "f" in want else set())) if neg else want
                 if got != exp:
                     fail("fn-" + cond["type"], f"field name condition {cond}{' negated' if neg else ''}: item applied to {got if isinstance(got, str) else sorted(got)}, expected {sorted(exp)}", [cond, neg])
+        # ---- match_value on values whose class is a subclass of the plain value types (case-sensitive strings, timestamp parts)
+        def run3(item):
+            import re as _re
+            q = TextQueryTestBackend(ProcessingPipeline.from_dict({"transformations": [dict(item, id="marked", type="field_name_prefix", prefix="X_")]})).convert(SigmaCollection.from_dicts([copy.deepcopy(RULE3)]))[0]
+            return {m.group(2) for m in _re.finditer(r"(?<!\w)(X_)?(c|d|t|e)(?= |=)", q) if m.group(1)}
+        for cond, want in (({"type": "match_value", "cond": "any", "value": "AbC"}, {"c", "d"}), ({"type": "match_value", "cond": "any", "value": 12}, {"t"}), ({"type": "match_value", "cond": "all", "value": "*x*"}, {"e"}),
+                           ({"type": "match_value", "cond": "any", "value": "abc"}, set()), ({"type": "match_string", "cond": "any", "pattern": "^AbC$"}, {"c", "d"}), ({"type": "contains_wildcard", "cond": "any"}, {"e"})):
+            for neg in (False, True):
+                ev += 1
+                nontriv += 1
+                try:
+                    got = run3({"detection_item_conditions": [cond], **({"detection_item_cond_not": True} if neg else {})})
+                except Exception as e:
+                    got = f"{type(e).__name__}: {e}"
+                exp = ({"c", "d", "t", "e"} - want) if neg else want
+                if got != exp:
+                    fail("di3-" + cond["type"], f"detection item condition {cond}{' negated' if neg else ''} on a rule with case-sensitive / timestamp-part values: item applied to {got if isinstance(got, str) else sorted(got)}, expected {sorted(exp)}", [cond, neg])
         return {"evaluations": ev, "distinct_nontrivial": nontriv, "failures": fails, "failure_counts": seen, "bound": "rule_attribute: 10 attributes x 2..6 values x 8 operators; 23 other rule conditions, 15 detection-item and 11 field-name conditions, each plain and negated",
                 "rule": "distinct (condition, negation); every one is non-trivial", "samples": samples, "exhaustive": True}
